@@ -160,7 +160,43 @@ func genSpanQueue() {
 		fmt.Fprintf(&b, "(%q, %q)", k, caps[k])
 	}
 	b.WriteString("]\n\n")
-	fmt.Fprintf(&b, "/-- doStreaming receives from the queue with the two-value form (sees a closed queue) -/\ndef workerChecksClosed : Bool := %v\n\nend Gen.SpanQueue\n", okChecked)
+	fmt.Fprintf(&b, "/-- doStreaming receives from the queue with the two-value form (sees a closed queue) -/\ndef workerChecksClosed : Bool := %v\n\n", okChecked)
+	// the bound newTraceObserverWithWorker puts on the configured queue size before making the channels (0: none)
+	maxQ := "0"
+	clamps := false
+	if info, files := loadPkg("internal/newrelic/infinite_tracing"); info != nil {
+		for _, f := range files {
+			for _, d := range f.Decls {
+				gd, ok := d.(*ast.GenDecl)
+				if !ok {
+					continue
+				}
+				for _, sp := range gd.Specs {
+					if vs, ok := sp.(*ast.ValueSpec); ok {
+						for i, n := range vs.Names {
+							if n.Name == "maxQueueSize" && i < len(vs.Values) {
+								if tv, ok := info.Types[vs.Values[i]]; ok && tv.Value != nil {
+									maxQ = tv.Value.ExactString()
+								}
+							}
+						}
+					}
+				}
+			}
+		}
+		if fn := findFuncIn(files, "", "newTraceObserverWithWorker"); fn != nil {
+			ast.Inspect(fn, func(n ast.Node) bool {
+				if ifs, ok := n.(*ast.IfStmt); ok && strings.Contains(exprString(ifs.Cond), "QueueSize>maxQueueSize") {
+					clamps = true
+				}
+				return true
+			})
+		}
+	}
+	if !clamps {
+		maxQ = "0"
+	}
+	fmt.Fprintf(&b, "/-- the largest queue newTraceObserverWithWorker makes: a larger configured size is lowered to it (0 = the size is used as it comes) -/\ndef maxQueueSize : Nat := %s\n\nend Gen.SpanQueue\n", maxQ)
 	writeLean("SpanQueue", b.String())
 	facts["spanqueue"] = map[string]interface{}{"producer_ops": len(ops), "caps": caps, "worker_checks_closed": okChecked}
 }
